@@ -663,7 +663,13 @@ pub fn t_pipe(rng: &mut Rng, profile: &'static str, run_seed: u64, miri: bool, t
     // the firer feeds the input
     // a separate thread feeds the input: a push can block (the wake-up may end up dropping the last owner of the target, which waits
     // for the queue), so it must not be the thread that opens the gates
-    for _ in preloaded..n_items { prog.pusher.push(FAct::Item(0)); }
+    // sometimes an item is only pushed once the consumer is waiting for it (the output then has to wake the consumer)
+    let wait_for_consumer = through && !drop_output && rng.chance(if miri { 2 } else { 1 }, 3);
+    for _ in preloaded..n_items {
+        if wait_for_consumer && rng.chance(1, 2) { prog.pusher.push(FAct::WaitConsumerWaiting(0)); }
+        prog.pusher.push(FAct::Item(0));
+    }
+    if wait_for_consumer && close && !preclosed && rng.chance(1, 2) { prog.pusher.push(FAct::WaitConsumerWaiting(0)); }
     if close && !preclosed { prog.pusher.push(FAct::Close(0)); }
     let mut gates: Vec<usize> = (0..prog.n_gates).collect();
     rng.shuffle(&mut gates);
